@@ -9,3 +9,4 @@ pub mod c13;
 mod gen_c13;
 mod gen_c11;
 pub mod c11;
+pub mod c12;
